@@ -171,7 +171,9 @@ void Server::Impl::onTcpReceived(const TcpServer::ConnToken &ct, Buffer &buff)
                 conn->close_index = conn->req_index;
                 LogDbg("mark close at %d", conn->close_index);
 
-                tcp_server_.shutdown(ct, SHUT_RD);
+                //! 注意：这里不能 shutdown(SHUT_RD)。读端关闭后 socket 立即可读且读到0字节，
+                //! 连接会被当成对端关闭而销毁，尚未完成的回复就发不出去了。
+                //! 后续收到的数据由本函数开头的 close_index 判断丢弃。
             }
 
             auto sp_ctx = make_shared<Context>(wp_parent_, ct, conn->req_index++, req);
